@@ -953,7 +953,7 @@ def gen_py_project(seed, rename=None):
         n = rng.choice(plans["pkg/inner.py"]["vars"])
         plans["pkg/sub/deep.py"]["imports"] = [{"form": "from", "module": "..inner", "names": [(n, "up_" + n)], "binds": ["up_" + n],
                                                 "kind": "relative-from-import-alias", "target": {"up_" + n: ("pkg/inner.py", n)}}]
-    if rng.random() < 0.5 and plans["pkg/sub/deep.py"]["vars"]:
+    elif rng.random() < 0.7 and plans["pkg/sub/deep.py"]["vars"]:        # (never both: that would be a circular import)
         n = rng.choice(plans["pkg/sub/deep.py"]["vars"])
         plans["pkg/inner.py"]["imports"] = [{"form": "from", "module": ".sub.deep", "names": [(n, "down_" + n)], "binds": ["down_" + n],
                                              "kind": "relative-from-import-alias(into-sub-package)", "target": {"down_" + n: ("pkg/sub/deep.py", n)}}]
